@@ -182,6 +182,21 @@ CHECKS = {
              "the model is permissive (only no-crash / no-hang / second connection are demanded); a panic of the session "
              "goroutine is recovered by the driver and recorded as a death (lal has no recover there).",
         ref="6/C04", level="model_checking"),
+    "C05": dict(
+        technique="TLA+ spec Payloads (grammar of 431 publisher payload classes x 7 timestamp classes composed with a history "
+                  "machine of what the stream has seen; TLC explores every reachable history) + replay of every edge through "
+                  "Group.OnReadRtmpAvMsg of a real ServerManager with every output enabled, in child processes with a per-call "
+                  "watchdog and an idle second stream + TLC trace validation",
+        text="TLC checks that the predicted outcome of every (history, payload class, timestamp class) is total and never a "
+             "crash or stall; init-rooted paths covering the edges are replayed against a real ServerManager with RTMP, "
+             "HTTP-FLV, HTTP-TS, HLS, RTSP, FLV and TS recording, a stream hook and (second configuration) dummy audio and GOP "
+             "caches, with consumers joining where the path says; TLC decides per step that the process did not die, the call "
+             "did not stall, the other stream was served, nothing was altered, fan-out stayed bounded and (predictive "
+             "configuration) exactly the predicted consumers received the message.",
+        note="Decided over payload classes, not every byte value; 'time bounded by size' is a 400 ms + 1 us/byte watchdog that "
+             "must reproduce twice plus a fan-out bound; quick replays a seed-chosen 4000 of ~14300 covering paths, thorough "
+             "every edge three times; not all 2^9 output combinations.",
+        ref="6/C05", level="model_checking"),
 }
 
 NOT_APPLICABLE = {}
